@@ -85,6 +85,9 @@ def judge_conservation(leaves, pages):
 def signature_of(failure, lf):
     if failure in ('lost', 'duplicated') and lf['kind'] == 'footnote' and 'columns' in lf['ctx']:
         return 'lost:footnote-in-columns'
+    if failure == 'duplicated' and lf['kind'] == 'cell':
+        # a split table cell restarts from its beginning (listed for C10, also seen by C01/C03)
+        return 'table-split:cell-content-once[restart-after-empty-fragment]'
     return None
 
 
